@@ -68,7 +68,7 @@ class Unit:
     def __init__(self, name, props, backend, parts, csig, spec, xform=None, compose=None, aux=(),
                  enforce=None, rec=False, replace='auto', no_replace=(), loops=None, defines=(),
                  cbmc_flags=(), harness=None, fire=None, replay=(), smt=None, timeout=None,
-                 bounded=None, unwind=None, extra_c='', pre_c='', notes='', max_fail_labels=None):
+                 bounded=None, unwind=None, extra_c='', pre_c='', notes='', max_fail_labels=None, must_contain=(), trusted=(), thorough_only=False, also_replace=()):
         self.name, self.props, self.backend = name, list(props), backend
         self.parts = parts if isinstance(parts, list) else [parts]
         self.csig, self.spec = csig, spec if isinstance(spec, (list, tuple)) else [spec]
@@ -85,6 +85,8 @@ class Unit:
         self.unwind = unwind
         self.extra_c = extra_c; self.pre_c = pre_c; self.notes = notes
         self.aux = list(aux)
+        self.also_replace = list(also_replace)
+        self.must_contain = list(must_contain); self.trusted = list(trusted); self.thorough_only = thorough_only
 
 _header_cache = {}
 def header_tokens(rel):
@@ -204,6 +206,10 @@ def build_unit(unit, workdir):
     os.makedirs(workdir, exist_ok=True)
     F = cxx2c.Fired()
     bodies = []; infos = []
+    for (hdr, pat) in unit.must_contain:
+        if not cxx2c.find_all(header_tokens(hdr), toks(pat)):
+            raise Drift("%s no longer contains: %s" % (hdr, pat))
+        F.hit('MUST-CONTAIN')
     for part in unit.parts:
         tk, info = extract_part(part, F, unit.xform)
         bodies.append(tk); infos.append(info)
@@ -251,7 +257,7 @@ def build_unit(unit, workdir):
             raise Drift("%s: rule %s fired %d times, expected [%d,%d]" % (unit.name, k, n, lo, hi))
     contract_fns = spec_contract_functions(spec_paths, unit.defines)
     if unit.replace == 'auto':
-        replace = sorted((contract_fns & idents_called) - {unit.enforce} - unit.no_replace)
+        replace = sorted(((contract_fns & idents_called) | set(unit.also_replace)) - {unit.enforce} - unit.no_replace)
     else:
         replace = list(unit.replace)
     return dict(cfile=cfile, infos=infos, fired=dict(F), replace=replace, n_loops=count_loops(all_tk))
